@@ -107,7 +107,7 @@ func init() {
 		}
 		neg := in.ts.Not(t)
 		in.St.AssertQueries++
-		r, err := in.sol.Check(append(s.pcList(), neg))
+		r, err := in.check(s, neg)
 		if err != nil {
 			r = smt.Unknown
 		}
@@ -438,6 +438,15 @@ func init() {
 	reg("runtime.KeepAlive", nop)
 	reg("runtime.SetFinalizer", nop)
 	reg("time.Sleep", nop)
+	reg("time.Now", func(in *Interp, s *State, c *callCtx) (Value, []*State, bool) {
+		return in.zero(c.fn.Signature.Results().At(0).Type()), nil, true
+	})
+	reg("time.Since", func(in *Interp, s *State, c *callCtx) (Value, []*State, bool) {
+		return in.ts.Const(64, 0), nil, true
+	})
+	reg("time.Until", func(in *Interp, s *State, c *callCtx) (Value, []*State, bool) {
+		return in.ts.Const(64, 0), nil, true
+	})
 	reg("os.Exit", func(in *Interp, s *State, c *callCtx) (Value, []*State, bool) {
 		s.status = Fatal
 		s.msg = "os.Exit" + in.where(s)
